@@ -21,7 +21,10 @@ RULE = (
     "behavioural (differential between two spellings): an executable program is rendered once with subcircuit "
     "blocks and once with them spelled out as prepare_all; B; measure_all; both texts are parsed and run: same "
     "number of subcircuits, same probabilities (1e-12), same readout attribution; parse_jaqal_output_list on both "
-    "with the same drawn outputs gives the same readouts and frequencies.  Non-trivial = a subcircuit inside a loop "
+    "with the same drawn outputs gives the same readouts and frequencies.  bracket-mix: the same differential without "
+    "consulting the reference: explicit prepare_all / measure_all gates are injected into subcircuit bodies (first, "
+    "last, middle, nested sequential block); both spellings must be rejected alike or give the same subcircuits, "
+    "distributions and readout attribution.  Non-trivial = a subcircuit inside a loop "
     "or macro, or mixed with an explicit prepare/measure section. distinct = (text, mode)."
 )
 ASSUMPTIONS = ["behavioural part: programs the reference accepts; outcomes are compared by attribution and distribution, not by sampled value"]
@@ -235,6 +238,66 @@ def behavioural(case):
     return {"nontrivial": nt, "classes": ["sub-in:" + x for x in sorted(ctxs)] + (["mixed-with-explicit"] if explicit and ctxs else []), "key": texts[0] + repr(sorted(env.items())), "sample": {"text": texts[0], "spelled_out": texts[1]}}
 
 
+def bracket_mix(case):
+    """The same differential WITHOUT asking the reference whether the program is acceptable:
+    explicit prepare_all / measure_all gates are injected into subcircuit bodies (first, last,
+    in the middle, in nested blocks), which makes most programs ill-bracketed.  Whatever the
+    verdict is, it must be the verdict on the spelled-out text - `subcircuit { B }` has no
+    meaning of its own."""
+    from jaqalpaq.emulator import run_jaqal_circuit
+
+    prog, gate_seed = case["prog"], case["gate_seed"]
+    if not any(s[0] == "sub" for s in walk(prog["body"])) and not any(s[0] == "sub" for m in prog["macros"] for s in walk([m["body"]])):
+        raise Skip()
+    nat = gates.make_gates(gate_seed)
+    texts = [render.to_text(prog), render.to_text(desugar_prog(prog))]
+    ctx = f"--- with subcircuit blocks:\n{texts[0]}\n--- spelled out:\n{texts[1]}"
+    results = []
+    for t in texts:
+        st_, c = guard(parse, t, inject_pulses=nat, what="parse")
+        if st_ == "err":
+            results.append(("parse-err", str(c)))
+            continue
+        np.random.seed(case.get("np_seed", 1))
+        with step_budget(4 * 10**6):
+            st_, res = guard(run_jaqal_circuit, c, what="run_jaqal_circuit")
+        results.append((st_, res))
+    (sa, ra), (sb, rb) = results
+    if sa != sb:
+        raise Violation("spellings-differ-in-outcome", f"{sa} {ra if sa != 'ok' else ''} vs {sb} {rb if sb != 'ok' else ''}\n{ctx}", where="bracket-mix")
+    if sa == "ok":
+        if len(ra.subcircuits) != len(rb.subcircuits):
+            raise Violation("spellings-differ", f"subcircuit count {len(ra.subcircuits)} vs {len(rb.subcircuits)}\n{ctx}", where="bracket-mix")
+        for x, y in zip(ra.subcircuits, rb.subcircuits):
+            if float(np.max(np.abs(np.asarray(x.simulated_probability_by_int) - np.asarray(y.simulated_probability_by_int)))) > 1e-12:
+                raise Violation("spellings-differ", f"probabilities of subcircuit {x.index}\n{ctx}", where="bracket-mix")
+        if [r_.subcircuit.index for r_ in ra.readouts] != [r_.subcircuit.index for r_ in rb.readouts]:
+            raise Violation("spellings-differ", f"readout attribution\n{ctx}", where="bracket-mix")
+    return {"nontrivial": bool(case.get("injected")), "classes": ["verdict:" + sa] + ["injected:%d" % min(3, len(case.get("injected") or []))], "key": texts[0], "sample": {"text": texts[0], "verdict": sa}}
+
+
+def bracket_cases():
+    def mk(ch):
+        c = gen_emul.make_emulable(ch, max_reg=3)
+        prog = c["prog"]
+        subs = [s for s in walk(prog["body"]) if s[0] == "sub"] + [s for m in prog["macros"] for s in walk([m["body"]]) if s[0] == "sub"]
+        injected = []
+        for s in subs:
+            if ch.int(0, 2) == 0:
+                continue
+            for _ in range(ch.pick([1, 1, 2])):
+                g = ["g", ch.pick(["prepare_all", "measure_all"]), []]
+                # the block to put it in: the subcircuit's own statement list or a sequential block nested in it
+                lists = [s[2]] + [x[1] for x in walk(s[2]) if x[0] == "seq"]
+                tgt = ch.pick(lists)
+                pos = ch.pick([0, len(tgt), ch.int(0, len(tgt))])
+                tgt.insert(pos, g)
+                injected.append([g[1], pos])
+        return {"prog": prog, "gate_seed": c["gate_seed"], "np_seed": ch.int(0, 10**6), "injected": injected}
+
+    return gen.cases(mk)
+
+
 def behav_cases():
     def mk(ch):
         c = gen_emul.make_emulable(ch, max_reg=4)
@@ -250,4 +313,5 @@ def parts():
     return [
         Part("structural", struct_cases(), structural, quick=4000, thorough=80000, min_nontrivial=0.15),
         Part("two-spellings", behav_cases(), behavioural, quick=1500, thorough=30000, min_nontrivial=0.15),
+        Part("bracket-mix", bracket_cases(), bracket_mix, quick=1500, thorough=30000, min_nontrivial=0.15),
     ]
